@@ -214,8 +214,16 @@ pub fn eval_fault(b: &Base, archive: &[u8], cstar: usize, f: &Fault, comp_plain:
     let model = b.p.model();
     let orig = &model.files;
     let bad = f.apply(archive);
-    let auth = sweep::repair_eval(&bad, &[0], false);
-    let unauth = sweep::repair_eval(&bad, &[0], true);
+    // one fault in four is repaired from a source that delivers at most 1..13 bytes per read call (both modes)
+    let cap = if f.pos() % 4 == 1 { 1 + f.pos() % 13 } else { 0 };
+    if cap > 0 {
+        rep.count("faults_repaired_from_a_short_read_source", 1);
+    }
+    let (auth, unauth) = if cap > 0 {
+        (sweep::repair_eval_capped(&bad, &[0], false, cap), sweep::repair_eval_capped(&bad, &[0], true, cap))
+    } else {
+        (sweep::repair_eval(&bad, &[0], false), sweep::repair_eval(&bad, &[0], true))
+    };
     rep.evaluations += 2;
     rep.transitions += 6;
     rep.class(&format!("{}/auth:{}/unauth:{}", b.cfg.layers.tag(), auth.class(), unauth.class()));
@@ -269,6 +277,13 @@ pub fn eval_fault(b: &Base, archive: &[u8], cstar: usize, f: &Fault, comp_plain:
     }
     // (iii) authenticated result is a prefix of the unauthenticated one
     if let RepairEval::Done(u) = &unauth {
+        // a cut alters no byte: what the unauthenticated mode returns is still original data
+        if let (Fault::Cut { .. }, Some((kind, d))) = (f, sweep::soundness(orig, u)) {
+            if kind == "foreign_name" || kind == "not_a_prefix" {
+                rep.violate(Violation { sig: sig(&format!("unauth_{kind}_after_a_cut")), detail: format!("fault {:?}{}: unauthenticated repair: {d}", f, if cap > 0 { format!(" (source delivering at most {cap} bytes per read)") } else { String::new() }), replay, weight });
+                return;
+            }
+        }
         for (name, fa) in &a.files {
             let fu = u.files.get(name).map(|x| x.data.as_slice()).unwrap_or(&[]);
             if fu.len() < fa.data.len() || fu[..fa.data.len()] != fa.data[..] {
@@ -289,6 +304,14 @@ pub fn eval_fault(b: &Base, archive: &[u8], cstar: usize, f: &Fault, comp_plain:
         }
     } else if let RepairEval::Panic(p) = &unauth {
         rep.violate(Violation { sig: json!({"kind": "panic", "panic": p.sig()}), detail: format!("unauthenticated repair panicked: {p:?}"), replay, weight });
+    } else if a.files.values().any(|f| !f.data.is_empty()) {
+        // "the unauthenticated mode returns at least as much": it may not fail where the authenticated one recovers
+        rep.violate(Violation {
+            sig: sig("unauth_fails_where_auth_recovers"),
+            detail: format!("fault {:?}: authenticated repair recovers {:?} but unauthenticated repair ends with {}", f, a.files.iter().map(|(n, x)| (prog::short_name(n), x.data.len())).collect::<Vec<_>>(), unauth.class()),
+            replay,
+            weight,
+        });
     }
 }
 
@@ -390,7 +413,7 @@ pub fn run(started: Instant) -> i32 {
         rep,
         Meta {
             level: "fault_enumeration",
-            rule: "encrypted base archives (real writer) whose file content carries, at the start of every encryption chunk, a well-formed FileContent/EndOfArchiveData or FileStart block; for every chunk index: bit flips in payload (first/middle/last byte; thorough: every byte) and tag, and truncation at every offset inside the chunk; both repair modes run on each. Oracle: authenticated output is a prefix of the original with original names only; contains nothing beyond what an independent decoder extracts from the plaintext of chunks before the first failing one; and is a prefix of the unauthenticated output. A third (thorough: all) of the bit-flip faults is also given to the mlar binary: `mlar repair` without option must write what the library's authenticated-only repair recovers, and with --allow-unauthenticated-data what the unauthenticated repair recovers. Every case is non-trivial (a fault inside an encrypted archive)".to_string(),
+            rule: "encrypted base archives (real writer) whose file content carries, at the start of every encryption chunk, a well-formed FileContent/EndOfArchiveData or FileStart block; for every chunk index: bit flips in payload (first/middle/last byte; thorough: every byte) and tag, and truncation at every offset inside the chunk; both repair modes run on each (one fault in four from a source delivering at most 1..13 bytes per read call). Oracle: authenticated output is a prefix of the original with original names only; contains nothing beyond what an independent decoder extracts from the plaintext of chunks before the first failing one; and is a prefix of the unauthenticated output. A third (thorough: all) of the bit-flip faults is also given to the mlar binary: `mlar repair` without option must write what the library's authenticated-only repair recovers, and with --allow-unauthenticated-data what the unauthenticated repair recovers. Every case is non-trivial (a fault inside an encrypted archive)".to_string(),
             exhaustive: true,
             bounds: json!({"bases": "one-file and three-interleaved-file encrypt-only archives of 7-8 chunks x {adversarial content block, adversarial new-file block, plain}; encrypt+compress archives with incompressible content (levels 5; thorough 0,5,11)", "faults": "per chunk: 3 payload flips (thorough: all bytes), 2 tag flips (thorough: all 16), every truncation offset"}),
             assumptions: vec!["scaled constants; adversarial continuation through brotli is not constructed (stated limit)".to_string(), "a forged tag is assumed impossible (2^-128)".to_string()],
